@@ -238,6 +238,19 @@ class RefOmen:
             for i, raw in enumerate(x for x in f.read().split(b"\n") if x.strip()):
                 self.ln[i + 1] = int(raw.strip())
 
+    @classmethod
+    def from_spec(cls, omen):
+        self = cls.__new__(cls)
+        self.ngram = omen["ngram"]
+        self.encoding = omen.get("encoding", "utf-8")
+        self.max_level = 10
+        self.ip = {g: l for l, g in omen["ip"]}
+        self.cp = {}
+        for l, g in omen["cp"]:
+            self.cp.setdefault(g[:-1], []).append((g[-1], l))
+        self.ln = {i + 1: l for i, l in enumerate(omen["ln"])}
+        return self
+
     def _read(self, path):
         with open(path, "rb") as f:
             data = f.read()
